@@ -11,6 +11,8 @@ import KyupyVerif.Proofs.CycleMem
 import KyupyVerif.Proofs.CycleRel
 import KyupyVerif.Proofs.CycleStrip
 import KyupyVerif.Proofs.NextStateSpec
+import KyupyVerif.Proofs.CycleSpec
+import KyupyVerif.Proofs.CycleZeroCap
 /-! # C01 — 2-valued logic simulation computes the netlist's Boolean function
 
 Generated from the working tree: `Gen.sem2n` (what `logic_sim._prop_cpu` computes for an op code),
@@ -35,24 +37,47 @@ a pure injection callback folded into `sem`, C16), every `merge` (m = 2, 4: copy
   sets state rows of `s[0]` to `merge old s[1][p]`; `cycle_zero_slot`;
 * (7) `cycle_iter` — `s[0]` after `cycle(k)` = `N^k s[0]`, `N = Cycle.nextState` (defined by THE solution: (7') `nextState_unique`),
   port rows constant, `s[1]` = capture of the labelling of `N^(k-1) s[0]`; memory left by earlier cycles is irrelevant;
-* (7s) `nextState_is_spec` — `N` is the INDEPENDENT specification `KV.nextStateFrom` (ports keep, a state element takes the value of
+* (7s) `nextState_is_spec` — ONE step, 2-valued njit path `semL2n`, `strip = false`, copy merge, hypotheses `forksOKB`, `linesDrivenB`
+  (generalised by (11)): `N` is the INDEPENDENT specification `KV.nextStateFrom` (ports keep, a state element takes the value of
   its data line under any labelling the specification's `consistentB` accepts, an open data pin takes constant 0), `nextState_eq_from`
   (the driver's `eval2` next state is that function of the `evalAll` labelling);
+* (11) **k cycles against the INDEPENDENT specification** (audit-2 finding 7; `KV.nextStateFrom` / `nextStateFromM`, Model/Net.lean,
+  Proofs/CycleSpec.lean — no op rows, memory or index tables): `accepted_labelling_exists` (for every assignment the specification's
+  check `consistentB` accepts the labelling the model computes — so an accepted labelling EXISTS; it is unique on the lines,
+  `consistentB_unique`), `cycle_iter_spec` (2-valued), `cycle_iter_spec_m4`, `cycle_iter_spec_m8`, general form `cycle_iter_spec_any`
+  (any value domain, any merge, `strip_forks` on or off): `s[0]` after `cycle(k)` = the k-fold iterate of
+  `a ↦ nextStateFrom net z (v a) a` for ANY labelling family `v` accepted at the iterates `0 … k-1`; `cycle_spec_run` +
+  `spec_step_total_functional` (relation form without a family: the specification's step is total and functional, the simulator's
+  `s[0]` rows follow it, every sequence that follows it ends in `s[0]` after `cycle(k)`); `cycle_iter_iterState` (= the driver's
+  executable `KV.iterState`, what the oracle compares the real `s[0]` with, under the flag `KV.iterAccepted` = `consistentB` on
+  `evalAll` at EVERY iterate — returned by the driver's `eval2`, lanes with the flag off are skipped by the harness);
+  `cycle_iter_spec_lanes` (lane k of the bit-parallel loop); `cycle_memory_is_spec` (the loop ON MEMORY for the `SimOps` model tables).
+  HYPOTHESES, all explicit and decidable: `Net.wfB`, `orderOKB`, `forksOKB`, `linesDrivenB Gen.kindPrefixes` (every line is written by
+  a row: known cell kinds; evaluated per case — `netspeccert`, tags `cycle-netspec-hyp:*`, `oracle-netspec-hyp:*`), for
+  `strip = true` also `capDriversB`; `z` is the content of the constant slot (0 on every real memory: `cycle_zero_slot`).
+  The general form takes the op semantics through `heq` (agrees with the documented LUT semantics on known codes: theorems
+  `semL2n/2p/2c/4/8_eq_spec` for the five generated dispatchers) and `SemSpec` (`semSpec2/4/8`).
 * (7'') `cycle_array_form` — the driver's array form = the model;
 * (8) `cycle_on_memory`, (8') `cycle_end_to_end` — the loop ON MEMORY (`s_to_c` writes rows `c_locs[ppi_offset+p]`, real op rows on
   memory, `c_to_s` reads rows `c_locs[ppo_offset+p]`; any allocator, `c_reuse`, `strip_forks`) = the signal-level loop, under the
-  accepted map certificate (C08) and the decidable table condition `zeroCapB`;
+  accepted map certificate (C08) and the decidable table condition `zeroCapB`; (8z) `zeroCap_simopsMap` — `zeroCapB` is a THEOREM for
+  the tables the `SimOps` model builds, (8e) `cycle_on_memory_all_circuits` — (8) for ALL circuits without per-instance certificate
+  (`strip_forks` on or off, any capacity vector, with or without `c_reuse`; hypotheses `wfB`, `orderOKB`, `readsDrivenB`, `forksOKB`
+  when stripping);
 * (9) `cycle_lanes` — lane k of the bit-parallel loop = the one-lane loop on lane k, any batch size, any k;
 * (10) `cycle_strip_irrelevant` — `s` after `cycle(k)` does not depend on `strip_forks` (hypotheses `forksOKB`, `capDriversB`).
 CORRESPONDENCE (harness/c01.py `cycle_tie`, every generated sequential case, m = 2, 4, 8, {strip_forks} x {c_reuse}, both
 `c_prop` code paths, k = 0..5, random `s[0]`, `s[1]` in all planes, all lanes): `pippi/poppo/ppio_s_locs` and
 `pippi/poppo_c_locs` of the real `LogicSim` = the model's tables; `s[0]`, `s[1]` after the real `cycle(k)` = `cycleKA k`;
 certificates `zeroCapB` (real `c_locs`), `capDriversB`, `forksOKB`, `wfB`, `orderOKB` (real order) per case.
-Still ORACLE / per-instance only: that the real map passes the certificate (C08, per instance);
+Still ORACLE / correspondence only: that the REAL tables equal the model tables `simopsMap` (exact correspondence, C08) — for real
+tables the certificate and `zeroCapB` are evaluated per case; the m = 4 / m = 8 `cycle(k)` of the real code against a specification
+(`cycle_iter_spec_m4/_m8` are theorems about the model; the real 4- and 8-valued loop is tied to the model by `cycle_tie` only, the
+k-cycle ORACLE `eval2` is 2-valued);
 (a state element without output pin list has no (P)PI slot: `pippi_s_locs` skips it since fix 7a998c8 — before, `s_to_c` stored
 through `c_locs = -1` into the last memory row; the model follows the repaired table, `Cycle.ppiUsedS`, so (8) needs no side condition on it);
-the bit-plane packing of `s` is outside the model (one value per lane and position = the first mdim planes; the planes
->= mdim that `s_ppo_to_ppi` copies along and the plane-1 copy `c_to_s` makes for m = 2 are neither modelled nor compared). -/
+the bit-plane packing of `s` is outside THIS model (one value per lane and position = the first mdim planes); it is modelled and
+tied byte by byte, all planes, in C15Sim (`datapath_tie`). -/
 namespace KV.C01
 open KV KV.Sig
 
@@ -385,6 +410,16 @@ example : consistentB openNet false (!·) prim2 (fun p => p == 2) (evalAll openN
   decide +kernel
 
 open KV.Cycle in
+/-- the theorem itself instantiated (audit 2, C-F2: the example above only evaluates the specification): the simulator model's next
+    state of `openNet` from `[0, 0, 1]` is `[0, 0, 0]`, obtained THROUGH `nextState_is_spec` with `evalAll` as the accepted labelling -/
+example :
+    Cycle.nextState (fun op => semL2n op.code) (sigOps Gen.kindPrefixes openNet [0, 2, 1, 3, 4, 5] false) openNet false mergeCopy
+      false (fun _ => false) [false, false, true] = [false, false, false] := by
+  rw [nextState_is_spec openNet [0, 2, 1, 3, 4, 5] (by decide +kernel) (by decide +kernel) (by decide +kernel) (by decide +kernel)
+    false (fun _ => false) [false, false, true] (evalAll openNet false (!·) prim2 (fun p => p == 2)) (by decide +kernel)]
+  decide +kernel
+
+open KV.Cycle in
 /-- (7'') the form the correspondence runs evaluate: the compiled driver runs `cycleKA` (memory as an array of `c_locs_len`
     entries); it leaves the same `s` (and memory) as `cycleK`, for every well-formed netlist, order, `strip_forks` setting -/
 theorem cycle_array_form {α} (tbl : List PrefixRow) (net : Net) (order : List Nat) (strip : Bool)
@@ -562,6 +597,252 @@ theorem cycle_lanes (w k : Nat) (hk : k < w) (ops : List Op) (T : Tabs) (n : Nat
     ⟨fun x => (st.env x).getLsbD k, ⟨st.s.s0.map (·.getLsbD k), st.s.s1.map (·.getLsbD k)⟩⟩
     ⟨fun _ => rfl, All2.of_map _ _, All2.of_map _ _⟩
   exact ⟨h.s0.map_eq, h.s1.map_eq⟩
+
+/-! ### (11) `cycle(k)` against the INDEPENDENT next-state specification (audit-2 finding 7)
+
+`KV.nextStateFromM net merge z v a` (Proofs/CycleSpec.lean; `= KV.nextStateFrom net z v a` of Model/Net.lean for `merge = mergeCopy`, by
+`rfl`: `nextStateFrom_is_copy`) is written without op rows, memory or index tables: ports keep their value, a state element takes
+`merge old (v of its data line)`, an open data pin reads the constant `z`.  `consistentB net z neg prim asg v` is the specification's
+acceptance check (every line carries `lineEq` of its driver, over the documented primitive meanings `prim`).
+EVERY restriction is a hypothesis: `Net.wfB`, `orderOKB`, `forksOKB`, `linesDrivenB` (decidable; evaluated per case by `cyclecert` /
+`netspeccert` on the real circuit and order), the op semantics `sem` agrees with the documented LUT semantics `spec` on known codes
+(`heq`; theorems `semL2n_eq_spec`, `semL2p_eq_spec`, `semL2c_eq_spec`, `semL4_eq_spec`, `semL8_eq_spec` for the five generated
+dispatchers), `spec` means `prim`/`neg` (`SemSpec`: `semSpec2/4/8`), and for `strip = true` additionally `capDriversB` and "BUF1
+returns its first operand". -/
+
+theorem nextStateFrom_is_copy (net : Net) (z : Bool) (v : Array Bool) (a : List Bool) :
+    nextStateFromM net Cycle.mergeCopy z v a = nextStateFrom net z v a := rfl
+
+/-- (11a) **an accepted labelling EXISTS** for every assignment: the labelling of the lines the simulator model computes
+(`simLabel`) passes the specification's check `consistentB` — for every well-formed netlist, topological order that schedules every
+line, value domain, memory and assignment.  (`consistentB_unique`: it is the only one on the lines.) -/
+theorem accepted_labelling_exists {α} [BEq α] [LawfulBEq α] (sem spec : Nat → List α → α)
+    (heq : ∀ code, KnownCode code → ∀ xs, sem code xs = spec code xs) (neg : α → α) (prim : String → α → α → α → α → α)
+    (hs : SemSpec spec neg prim) (net : Net) (order : List Nat) (hwf : net.wfB = true) (ho : orderOKB net order = true)
+    (hfk : forksOKB net order = true) (hall : linesDrivenB Gen.kindPrefixes net order = true)
+    (d : α) (env : Nat → α) (a : List α) :
+    consistentB net (env net.idx.zero) neg prim (fun p => a.getD p d) (simLabel sem net order d env a) = true :=
+  simLabel_accepted sem spec heq neg prim hs net order hwf ho hfk hall d env a
+
+open KV.Cycle in
+/-- (11b) **`cycle_iter_spec`, general form**: any value domain `α` (m = 2, 4, 8), any `merge`, `strip_forks` on or off.  For ANY
+family `v` of line labellings (one per assignment) that the specification's check accepts at the iterates `0 … k-1`, `s[0]` after
+`cycle(k)` IS the k-fold iterate of the specification's next-state function `a ↦ nextStateFromM net merge z (v a) a`, `z` = content
+of the constant slot.  By (11a) such a family exists; by (11c) the iterate does not depend on which one is taken. -/
+theorem cycle_iter_spec_any {α} [BEq α] [LawfulBEq α] (sem spec : Nat → List α → α)
+    (heq : ∀ code, KnownCode code → ∀ xs, sem code xs = spec code xs) (neg : α → α) (prim : String → α → α → α → α → α)
+    (hs : SemSpec spec neg prim) (net : Net) (order : List Nat) (strip : Bool)
+    (hwf : net.wfB = true) (ho : orderOKB net order = true)
+    (hfk : forksOKB net order = true) (hall : linesDrivenB Gen.kindPrefixes net order = true)
+    (dflt : α) (hcov : strip = true → capDriversB net order = true)
+    (hbuf : strip = true → ∀ xs, sem BUF1 xs = xs.getD 0 dflt)
+    (merge : α → α → α) (d : α) (st : St α) (h0 : st.s.s0.length = net.sNodes.length)
+    (h1 : st.s.s1.length = net.sNodes.length) (k : Nat) (v : List α → Array α)
+    (hv : ∀ j, j < k → consistentB net (st.env net.idx.zero) neg prim
+        (fun p => (iter (fun a => nextStateFromM net merge (st.env net.idx.zero) (v a) a) j st.s.s0).getD p d)
+        (v (iter (fun a => nextStateFromM net merge (st.env net.idx.zero) (v a) a) j st.s.s0)) = true) :
+    (cycleK (fun op => sem op.code) (sigOps Gen.kindPrefixes net order strip) (tabsOf net strip) merge d k st).s.s0 =
+      iter (fun a => nextStateFromM net merge (st.env net.idx.zero) (v a) a) k st.s.s0 := by
+  have hf := cycleK_spec_gen sem spec heq neg prim hs net order hwf ho hfk hall merge d st h0 h1 k v hv
+  cases strip with
+  | false => exact hf
+  | true =>
+    rw [cycleK_strip Gen.kindPrefixes hwf ho hfk (hcov rfl) sem dflt (hbuf rfl) merge d k st st rfl h0 h1 (Agree.refl _ _ _)]
+    exact hf
+
+open KV.Cycle in
+/-- (11) **`cycle_iter_spec`** (2-valued `LogicSim`, njit path; `strip_forks` on or off): `s[0]` after `cycle(k)` = the k-fold iterate
+of the independent `KV.nextStateFrom` under any labelling family the specification accepts at the iterates `0 … k-1`. -/
+theorem cycle_iter_spec (net : Net) (order : List Nat) (strip : Bool)
+    (hwf : net.wfB = true) (ho : orderOKB net order = true)
+    (hfk : forksOKB net order = true) (hall : linesDrivenB Gen.kindPrefixes net order = true)
+    (hcov : strip = true → capDriversB net order = true)
+    (d : Bool) (st : St Bool) (h0 : st.s.s0.length = net.sNodes.length)
+    (h1 : st.s.s1.length = net.sNodes.length) (k : Nat) (v : List Bool → Array Bool)
+    (hv : ∀ j, j < k → consistentB net (st.env net.idx.zero) (!·) prim2
+        (fun p => (iter (fun a => nextStateFrom net (st.env net.idx.zero) (v a) a) j st.s.s0).getD p d)
+        (v (iter (fun a => nextStateFrom net (st.env net.idx.zero) (v a) a) j st.s.s0)) = true) :
+    (cycleK (fun op => semL2n op.code) (sigOps Gen.kindPrefixes net order strip) (tabsOf net strip) mergeCopy d k st).s.s0 =
+      iter (fun a => nextStateFrom net (st.env net.idx.zero) (v a) a) k st.s.s0 :=
+  cycle_iter_spec_any semL2n specL2 (fun _ h xs => semL2n_eq_spec h xs) (!·) prim2 semSpec2 net order strip hwf ho hfk hall false hcov
+    (fun _ => semL2n_buf1) mergeCopy d st h0 h1 k v hv
+
+open KV.Cycle in
+/-- (11-4) the same for 4-valued `LogicSim` (m = 4, `s_ppo_to_ppi` copies) … -/
+theorem cycle_iter_spec_m4 (net : Net) (order : List Nat) (strip : Bool)
+    (hwf : net.wfB = true) (ho : orderOKB net order = true)
+    (hfk : forksOKB net order = true) (hall : linesDrivenB Gen.kindPrefixes net order = true)
+    (hcov : strip = true → capDriversB net order = true)
+    (d : V2) (st : St V2) (h0 : st.s.s0.length = net.sNodes.length)
+    (h1 : st.s.s1.length = net.sNodes.length) (k : Nat) (v : List V2 → Array V2)
+    (hv : ∀ j, j < k → consistentB net (st.env net.idx.zero) spec4Not prim4
+        (fun p => (iter (fun a => nextStateFromM net mergeCopy (st.env net.idx.zero) (v a) a) j st.s.s0).getD p d)
+        (v (iter (fun a => nextStateFromM net mergeCopy (st.env net.idx.zero) (v a) a) j st.s.s0)) = true) :
+    (cycleK (fun op => semL4 op.code) (sigOps Gen.kindPrefixes net order strip) (tabsOf net strip) mergeCopy d k st).s.s0 =
+      iter (fun a => nextStateFromM net mergeCopy (st.env net.idx.zero) (v a) a) k st.s.s0 :=
+  cycle_iter_spec_any semL4 specL4 (fun _ h xs => semL4_eq_spec h xs) spec4Not prim4 semSpec4 net order strip hwf ho hfk hall default hcov
+    (fun _ => semL4_buf1) mergeCopy d st h0 h1 k v hv
+
+open KV.Cycle in
+/-- (11-8) … and for 8-valued `LogicSim` (m = 8), any `merge` (the real one is the transition builder `Drv.Cycle.merge8` =
+`merge8L`: new value, old value, changed) -/
+theorem cycle_iter_spec_m8 (net : Net) (order : List Nat) (strip : Bool)
+    (hwf : net.wfB = true) (ho : orderOKB net order = true)
+    (hfk : forksOKB net order = true) (hall : linesDrivenB Gen.kindPrefixes net order = true)
+    (hcov : strip = true → capDriversB net order = true)
+    (merge : V3 → V3 → V3) (d : V3) (st : St V3) (h0 : st.s.s0.length = net.sNodes.length)
+    (h1 : st.s.s1.length = net.sNodes.length) (k : Nat) (v : List V3 → Array V3)
+    (hv : ∀ j, j < k → consistentB net (st.env net.idx.zero) specNot prim8
+        (fun p => (iter (fun a => nextStateFromM net merge (st.env net.idx.zero) (v a) a) j st.s.s0).getD p d)
+        (v (iter (fun a => nextStateFromM net merge (st.env net.idx.zero) (v a) a) j st.s.s0)) = true) :
+    (cycleK (fun op => semL8 op.code) (sigOps Gen.kindPrefixes net order strip) (tabsOf net strip) merge d k st).s.s0 =
+      iter (fun a => nextStateFromM net merge (st.env net.idx.zero) (v a) a) k st.s.s0 :=
+  cycle_iter_spec_any semL8 specL8 (fun _ h xs => semL8_eq_spec h xs) specNot prim8 semSpec8 net order strip hwf ho hfk hall default hcov
+    (fun _ => semL8_buf1) merge d st h0 h1 k v hv
+
+open KV.Cycle in
+/-- (11c) **the run of `cycle` is THE run of the specification** (no labelling family needed).  `SpecStep net neg prim merge z d a a'`:
+some labelling accepted by `consistentB` for assignment `a` yields `a' = nextStateFromM …`.  The relation is total and functional
+(`specStep_total`, `specStep_functional`); (a) consecutive `s[0]` rows of the simulator are related by it; (b) every sequence of
+assignments that starts at `s[0]` and follows it for k steps ends in `s[0]` after `cycle(k)`.  Any value domain, merge. -/
+theorem cycle_spec_run {α} [BEq α] [LawfulBEq α] (sem spec : Nat → List α → α)
+    (heq : ∀ code, KnownCode code → ∀ xs, sem code xs = spec code xs) (neg : α → α) (prim : String → α → α → α → α → α)
+    (hs : SemSpec spec neg prim) (net : Net) (order : List Nat) (hwf : net.wfB = true) (ho : orderOKB net order = true)
+    (hfk : forksOKB net order = true) (hall : linesDrivenB Gen.kindPrefixes net order = true)
+    (merge : α → α → α) (d : α) (st : St α) (h0 : st.s.s0.length = net.sNodes.length)
+    (h1 : st.s.s1.length = net.sNodes.length) :
+    let run := fun k => (cycleK (fun op => sem op.code) (sigOps Gen.kindPrefixes net order false) (tabsOf net false) merge d k st).s.s0
+    (∀ k, SpecStep net neg prim merge (st.env net.idx.zero) d (run k) (run (k + 1))) ∧
+    (∀ (seq : Nat → List α) (k : Nat), seq 0 = st.s.s0 →
+      (∀ j, j < k → SpecStep net neg prim merge (st.env net.idx.zero) d (seq j) (seq (j + 1))) → seq k = run k) :=
+  cycleK_spec_run sem spec heq neg prim hs net order hwf ho hfk hall merge d st h0 h1
+
+/-- (11c') the specification's step relation is total and functional -/
+theorem spec_step_total_functional {α} [BEq α] [LawfulBEq α] (spec : Nat → List α → α) (neg : α → α)
+    (prim : String → α → α → α → α → α)
+    (hs : SemSpec spec neg prim) (net : Net) (order : List Nat) (hwf : net.wfB = true) (ho : orderOKB net order = true)
+    (hfk : forksOKB net order = true) (hall : linesDrivenB Gen.kindPrefixes net order = true)
+    (merge : α → α → α) (z d : α) (a : List α) :
+    (∃ a', SpecStep net neg prim merge z d a a') ∧
+    ∀ a1 a2, SpecStep net neg prim merge z d a a1 → SpecStep net neg prim merge z d a a2 → a1 = a2 :=
+  ⟨specStep_total spec neg prim hs net order hwf ho hfk hall merge z d a,
+   fun a1 a2 => specStep_functional spec neg prim hs net order hwf ho hfk hall merge z d a a1 a2⟩
+
+open KV.Cycle in
+/-- (11d) **`cycle(k)` = `KV.iterState`** — the executable function the driver's `eval2` runs and the oracle of harness/c01.py compares
+the real `s[0]` with: position by position, for every k, provided the constant slot holds 0 and the evaluator's labelling `evalAll` is
+accepted at the iterates `0 … k-1` — the flag `KV.iterAccepted net (k-1)` that `eval2` now returns (AND over ALL iterates; the harness
+skips a lane when it is off: combinational loop). -/
+theorem cycle_iter_iterState (net : Net) (order : List Nat) (hwf : net.wfB = true) (ho : orderOKB net order = true)
+    (hfk : forksOKB net order = true) (hall : linesDrivenB Gen.kindPrefixes net order = true)
+    (d : Bool) (st : St Bool) (h0 : st.s.s0.length = net.sNodes.length) (h1 : st.s.s1.length = net.sNodes.length)
+    (hz : st.env net.idx.zero = false) (k : Nat)
+    (hacc : k = 0 ∨ iterAccepted net (k - 1) (fun p => st.s.s0.getD p false) = true) (p : Nat) :
+    (cycleK (fun op => semL2n op.code) (sigOps Gen.kindPrefixes net order false) (tabsOf net false) mergeCopy d k st).s.s0.getD p false =
+      iterState net k (fun p => st.s.s0.getD p false) p :=
+  cycleK_iterState semL2n (fun _ h xs => semL2n_eq_spec h xs) net order hwf ho hfk hall d st h0 h1 hz k hacc p
+
+open KV.Cycle in
+/-- (11e) **lanes**: lane `k` of the bit-parallel 2-valued simulator (`BitVec w` per entry, any batch size) after `n` cycles = the
+`n`-fold iterate of the specification on lane `k` of the initial `s[0]` (composition of (9) `cycle_lanes` and (11)) -/
+theorem cycle_iter_spec_lanes (w k : Nat) (hk : k < w) (net : Net) (order : List Nat) (strip : Bool)
+    (hwf : net.wfB = true) (ho : orderOKB net order = true)
+    (hfk : forksOKB net order = true) (hall : linesDrivenB Gen.kindPrefixes net order = true)
+    (hcov : strip = true → capDriversB net order = true)
+    (st : St (BitVec w)) (h0 : st.s.s0.length = net.sNodes.length) (h1 : st.s.s1.length = net.sNodes.length) (n : Nat)
+    (v : List Bool → Array Bool)
+    (hv : ∀ j, j < n → consistentB net ((st.env net.idx.zero).getLsbD k) (!·) prim2
+        (fun p => (iter (fun a => nextStateFrom net ((st.env net.idx.zero).getLsbD k) (v a) a) j (st.s.s0.map (·.getLsbD k))).getD p false)
+        (v (iter (fun a => nextStateFrom net ((st.env net.idx.zero).getLsbD k) (v a) a) j (st.s.s0.map (·.getLsbD k)))) = true) :
+    (cycleK (fun op => semLw w op.code) (sigOps Gen.kindPrefixes net order strip) (tabsOf net strip) mergeCopy 0 n st).s.s0.map
+        (·.getLsbD k) =
+      iter (fun a => nextStateFrom net ((st.env net.idx.zero).getLsbD k) (v a) a) n (st.s.s0.map (·.getLsbD k)) := by
+  rw [(cycle_lanes w k hk _ _ n st).1]
+  exact cycle_iter_spec net order strip hwf ho hfk hall hcov false
+    ⟨fun x => (st.env x).getLsbD k, ⟨st.s.s0.map (·.getLsbD k), st.s.s1.map (·.getLsbD k)⟩⟩
+    (by simpa using h0) (by simpa using h1) n v hv
+
+open KV.Cycle in
+/-- (8z) **`zeroCapB` is a theorem for the `SimOps` model tables** (audit-2 finding 7 / C-F3): the table condition of (8), (8') holds
+for `simopsMap` — every well-formed netlist, topological order, capacity vector, with or without `c_reuse` / `strip_forks` -/
+theorem zeroCap_simopsMap (tbl : List PrefixRow) (net : Net) (order : List Nat) (strip : Bool) (capsIn : Nat → Nat)
+    (capsMin : Nat) (reuse : Bool) (hwf : net.wfB = true) (ho : orderOKB net order = true)
+    (hf : strip = true → forksOKB net order = true) (hr : readsDrivenB tbl net order = true) (hpos : 0 < capsMin) :
+    zeroCapB (simopsMap tbl net order strip capsIn capsMin reuse) = true :=
+  zeroCapB_simopsMap tbl net order strip capsIn capsMin reuse hwf ho hf hr hpos
+
+open KV.Cycle in
+/-- (8e) **`cycle(k)` on memory, ALL circuits, no per-instance certificate** (`strip_forks` on or off, any allocator capacity vector,
+with or without `c_reuse`): for the tables the `SimOps` model builds, the `s` array after k cycles ON MEMORY is the `s` array of the
+signal-level loop — the certificate hypotheses of (8) are discharged by `C08.simops_map_accepted` and (8z). -/
+theorem cycle_on_memory_all_circuits {α} [Inhabited α] (tbl : List PrefixRow) (net : Net) (order : List Nat) (strip : Bool)
+    (capsIn : Nat → Nat) (capsMin : Nat) (reuse : Bool)
+    (hwf : net.wfB = true) (ho : orderOKB net order = true) (hf : strip = true → forksOKB net order = true)
+    (hr : readsDrivenB tbl net order = true) (hpos : 0 < capsMin)
+    (f : Nat → List α → α) (merge : α → α → α) (d : α) (k : Nat) (m0 : Int → α) (env0 : Nat → α) (s : S α)
+    (hz : m0 ((simopsMap tbl net order strip capsIn capsMin reuse).loc net.idx.zero) = env0 net.idx.zero) :
+    (cycleKM (simopsMap tbl net order strip capsIn capsMin reuse) f (tabsOf net strip) merge d k ⟨m0, s⟩).s =
+      (cycleK (fun op => f op.code) (sigOps tbl net order strip) (tabsOf net strip) merge d k ⟨env0, s⟩).s :=
+  cycle_on_memory tbl (simopsMap tbl net order strip capsIn capsMin reuse) order rfl
+    (simopsMap_accepted tbl net order strip capsIn capsMin reuse hwf ho hf hr hpos) hpos
+    (zeroCapB_simopsMap tbl net order strip capsIn capsMin reuse hwf ho hf hr hpos) f merge d k m0 env0 s hz
+
+open KV.Cycle in
+/-- (11m) **end to end, sequential, against the independent specification, ALL circuits**: `s[0]` after `cycle(k)` ON MEMORY (the
+`SimOps` model tables, `strip_forks` on or off, with or without `c_reuse`; 2-valued njit path) = the k-fold iterate of
+`KV.nextStateFrom` under any labelling family accepted at the iterates; `z` = what the row of the constant slot holds. -/
+theorem cycle_memory_is_spec (net : Net) (order : List Nat) (strip : Bool)
+    (capsIn : Nat → Nat) (capsMin : Nat) (reuse : Bool)
+    (hwf : net.wfB = true) (ho : orderOKB net order = true)
+    (hfk : forksOKB net order = true) (hall : linesDrivenB Gen.kindPrefixes net order = true)
+    (hr : readsDrivenB Gen.kindPrefixes net order = true) (hcov : strip = true → capDriversB net order = true)
+    (hpos : 0 < capsMin) (d : Bool) (k : Nat) (m0 : Int → Bool) (s : S Bool)
+    (h0 : s.s0.length = net.sNodes.length) (h1 : s.s1.length = net.sNodes.length) (v : List Bool → Array Bool) :
+    let z := m0 ((simopsMap Gen.kindPrefixes net order strip capsIn capsMin reuse).loc net.idx.zero)
+    (∀ j, j < k → consistentB net z (!·) prim2
+        (fun p => (iter (fun a => nextStateFrom net z (v a) a) j s.s0).getD p d)
+        (v (iter (fun a => nextStateFrom net z (v a) a) j s.s0)) = true) →
+    (cycleKM (simopsMap Gen.kindPrefixes net order strip capsIn capsMin reuse) (fun c => semL2n c) (tabsOf net strip)
+        mergeCopy d k ⟨m0, s⟩).s.s0 = iter (fun a => nextStateFrom net z (v a) a) k s.s0 := by
+  intro z hv
+  rw [cycle_on_memory_all_circuits Gen.kindPrefixes net order strip capsIn capsMin reuse hwf ho (fun _ => hfk) hr hpos
+    (fun c => semL2n c) mergeCopy d k m0 (fun _ => z) s rfl]
+  exact cycle_iter_spec net order strip hwf ho hfk hall hcov d ⟨fun _ => z, s⟩ h0 h1 k v hv
+
+/-- non-vacuity of (11), (11a), (11d): a 2-bit counter (`q0' = NOT q0`, `q1' = q1 XOR q0`, `q1` observed at an output port), three
+cycles from 00: the states are 01, 10, 11 (`s[0] = [port, q0, q1]`).  All hypotheses hold; the labelling family is the evaluator
+`evalAll`; the flag `iterAccepted` for the iterates 0, 1, 2 is on; `iterState` and the simulator model give `[0, 1, 1]`. -/
+def counterNet : Net :=
+  { nodes := #[⟨"DFF", [some 4], [some 0]⟩, ⟨"__fork__", [some 0], [some 1, some 2]⟩, ⟨"INV1", [some 1], [some 3]⟩,
+               ⟨"__fork__", [some 3], [some 4]⟩, ⟨"DFF", [some 9], [some 5]⟩, ⟨"__fork__", [some 5], [some 6, some 7]⟩,
+               ⟨"XOR2", [some 2, some 6], [some 8]⟩, ⟨"__fork__", [some 8], [some 9]⟩, ⟨"output", [some 7], []⟩],
+    lines := #[⟨0, 0, 1, 0⟩, ⟨1, 0, 2, 0⟩, ⟨1, 1, 6, 0⟩, ⟨2, 0, 3, 0⟩, ⟨3, 0, 0, 0⟩, ⟨4, 0, 5, 0⟩, ⟨5, 0, 6, 1⟩, ⟨5, 1, 8, 0⟩,
+               ⟨6, 0, 7, 0⟩, ⟨7, 0, 4, 0⟩],
+    io := [8] }
+def counterOrder : List Nat := [0, 4, 1, 5, 2, 6, 3, 7, 8]
+def counterSt : Cycle.St Bool := ⟨fun _ => false, ⟨[false, false, false], [false, false, false]⟩⟩
+def counterV (a : List Bool) : Array Bool := evalAll counterNet false (!·) prim2 (fun p => a.getD p false)
+example : counterNet.wfB = true ∧ orderOKB counterNet counterOrder = true ∧ forksOKB counterNet counterOrder = true ∧
+    linesDrivenB Gen.kindPrefixes counterNet counterOrder = true ∧ Cycle.capDriversB counterNet counterOrder = true ∧
+    readsDrivenB Gen.kindPrefixes counterNet counterOrder = true ∧
+    counterNet.sNodes = [8, 0, 4] ∧ counterNet.arityOKB = true := by decide +kernel
+theorem counter_accepted : ∀ j, j < 3 → consistentB counterNet (counterSt.env counterNet.idx.zero) (!·) prim2
+    (fun p => (Cycle.iter (fun a => nextStateFrom counterNet (counterSt.env counterNet.idx.zero) (counterV a) a) j
+      counterSt.s.s0).getD p false)
+    (counterV (Cycle.iter (fun a => nextStateFrom counterNet (counterSt.env counterNet.idx.zero) (counterV a) a) j
+      counterSt.s.s0)) = true := by decide +kernel
+example : iterAccepted counterNet 2 (fun p => counterSt.s.s0.getD p false) = true ∧
+    (List.range 3).map (iterState counterNet 3 (fun p => counterSt.s.s0.getD p false)) = [false, true, true] ∧
+    (List.range 3).map (iterState counterNet 2 (fun p => counterSt.s.s0.getD p false)) = [false, false, true] ∧
+    Cycle.iter (fun a => nextStateFrom counterNet false (counterV a) a) 3 [false, false, false] = [false, true, true] := by
+  decide +kernel
+/-- the theorem instantiated: three cycles of the simulator model (un-stripped and stripped) on the counter give state 11 -/
+example (strip : Bool) :
+    (Cycle.cycleK (fun op => semL2n op.code) (Cycle.sigOps Gen.kindPrefixes counterNet counterOrder strip)
+      (Cycle.tabsOf counterNet strip) Cycle.mergeCopy false 3 counterSt).s.s0 = [false, true, true] := by
+  rw [cycle_iter_spec counterNet counterOrder strip (by decide +kernel) (by decide +kernel) (by decide +kernel) (by decide +kernel)
+    (fun _ => by decide +kernel) false counterSt (by decide +kernel) (by decide +kernel) 3 counterV counter_accepted]
+  decide +kernel
 
 /-- non-vacuity of (4): a two-op program -/
 example : exec semL2n [⟨34952, 10, [0, 1, 9, 9]⟩, ⟨21845, 11, [10, 9, 9, 9]⟩] (fun l => l == 0 || l == 1) 11 = false := by
